@@ -429,6 +429,8 @@ BAD_URLS = [b"http://h:99999/", b"http://h:abc/x", b"http://[::1/", b"http://[v1
 BAD_STARTS = [b"", b"GET", b"GET /", b"get / HTTP/1.1", b"GET / HTTP/2.0", b"GET / FOO/1.1", b"FOO / HTTP/1.1",
               b"GET / HTTP/1.1 extra", b"\x00\x01", b"GET  /  HTTP/1.1", b"HTTP/1.1 200 OK", b" ", b"\xff",
               b"GET / HTTP/1.", b"GET / HTTP/", b"GET\t/\tHTTP/1.1", b"GET /\x85 HTTP/1.1"]
+ODD_VERSIONS = [b"HTTP/1.7", b"HTTP/1.x", b"HTTP/1.", b"HTTP/1.2", b"HTTP/1.10", b"HTTP/1.9", b"HTTP/1", b"HTTP/1.1.1",
+                b"http/1.1", b"HTTP/0.9", b"HTTP/2", b"HTTP/1.0x", b"HTTP/1.\xb2", b"HTTP/11.1", b"HTTP/ 1.1", b"HTTP/1,1"]
 BAD_STATUS = [b"", b"HTTP/1.1", b"HTTP/1.1 abc OK", b"HTTP/1.1 99 Low", b"HTTP/1.1 1000 High", b"HTTP/2.0 200 OK",
               b"FOO/1.1 200 OK", b"200 OK", b"HTTP/1.1 -20 OK", b"\x00", b"HTTP/1.1 2\xb20 OK", b"HTTP/ 200",
               b"HTTP/1.1 200\x85OK", b"HTTP/x.y 200 OK", b"HTTP/1.1 +200 OK", b"GET / HTTP/1.1"]
@@ -472,7 +474,7 @@ def malformed(draw, side):
     -> dict(data, mut, nt, base) ; nt = the damage lies behind an intact start line"""
     kinds = ["bytes", "bytes-late", "hdr-nocolon", "hdr-junk", "length", "start", "truncate", "random",
              "valid", "url" if side == "request" else "start", "big", "chunk-size", "chunk-term",
-             "bytes-late", "chunk-size", "chunk-term", "url" if side == "request" else "hdr-junk"]
+             "bytes-late", "chunk-size", "chunk-term", "url" if side == "request" else "hdr-junk", "version"]
     kind = kinds[draw(st.integers(0, 1018)) % len(kinds)]      # near-uniform over the list
     want = "chunked" if kind.startswith("chunk") or draw(st.integers(0, 3)) == 0 else None
     spec = draw(message(side, draw(st.integers(0, 3)) == 0, want=want))
@@ -514,6 +516,18 @@ def malformed(draw, side):
             data = wire[:after_start] + b"Content-Length: " + bad + b"\r\n" + wire[after_start:]
     elif kind == "start":
         data = splice(sl, draw(st.sampled_from(BAD_STARTS if side == "request" else BAD_STATUS)))
+        out["nt"] = False
+    elif kind == "version":
+        line = wire[sl[0]:sl[1]]
+        ver = draw(st.one_of(st.sampled_from(ODD_VERSIONS),
+                             st.builds(lambda a, b: b"HTTP/%d.%s" % (a, b), st.integers(0, 3),
+                                       st.sampled_from([b"", b"0", b"1", b"2", b"7", b"9", b"10", b"11", b"x", b"1x", b"01"]))))
+        if side == "request":
+            head, _, old = line.rpartition(b" ")
+            data = splice(sl, head + b" " + ver)
+        else:
+            old, _, rest = line.partition(b" ")
+            data = splice(sl, ver + b" " + rest)
         out["nt"] = False
     elif kind == "url":
         method = spec["start"]["method"]
